@@ -102,8 +102,23 @@ def pname(c1, c2):
     return "P_%s_%s" % (c1, c2)
 
 
+# Standard-library element types (name X_<tag>).  None of them declares trivially_relocatable, so the property's rule
+# leaves exactly two ways to be relocatable: std::is_trivially_copyable (as printed by the compiler) or being a pair
+# of relocatable types.  tag -> C++ type, or a pair of component tags.
+STD_TYPES = {
+    "int": "int", "array2": "std::array<int, 2>", "array3": "std::array<int, 3>",
+    "string": "std::string", "uniqueptr": "std::unique_ptr<int>", "sharedptr": "std::shared_ptr<int>",
+    "weakptr": "std::weak_ptr<int>", "stdvector": "std::vector<int>",
+    "pairintstring": ("int", "string"), "pairarray2int": ("array2", "int"),
+}
+# the ones used as element types (the others are only components of the pairs)
+STD_ELEMS = ["X_" + t for t in ("string", "uniqueptr", "sharedptr", "weakptr", "stdvector", "array3",
+                                "pairintstring", "pairarray2int")]
+
+
 class Elem:
     """Static knowledge about a generated element type, recovered from its name alone."""
+    std = property(lambda self: self.name.startswith("X_"))
 
     def __init__(self, name):
         self.name = name
@@ -116,6 +131,11 @@ class Elem:
             self.pair = (Elem(ename(p[1], *PAIR_SHAPE)), Elem(ename(p[2], *PAIR_SHAPE)))
             self.cat = "pair(%s+%s)" % (p[1], p[2])
             self.sigcat = "pair"
+        elif p[0] == "X":
+            spec = STD_TYPES[p[1]]
+            self.pair = None if isinstance(spec, str) else (Elem("X_" + spec[0]), Elem("X_" + spec[1]))
+            self.cat = self.sigcat = "std"
+            self.cxx = spec if isinstance(spec, str) else None
         else:
             raise ValueError(name)
 
@@ -125,6 +145,8 @@ class Elem:
     def definition(self):
         if self.pair:
             return "typedef std::pair<%s, %s> %s;\n" % (self.pair[0].name, self.pair[1].name, self.name)
+        if self.std:
+            return "typedef %s %s;\n" % (self.cxx, self.name)
         c, n = CATS[self.cat], self.name
         out = ["struct alignas(%d) %s {" % (self.a, n)]
         if c["decl"] is not None:
@@ -343,13 +365,15 @@ def gen_tu(rows):
 # 3. The oracle (from the property text only)
 # =====================================================================================================================
 
-def exp_reloc_elem(el, tc):
+def exp_reloc_elem(el, tc, ktc=None):
     """is_trivially_relocatable<T>: true exactly for types declaring true_type, for trivially copyable types that
-    make no declaration (a false_type declaration opts out), and for pairs of relocatable types."""
+    make no declaration (a false_type declaration opts out), and for pairs of relocatable types.
+    tc = std::is_trivially_copyable<T> as printed; for the components of a pair it comes from ktc (their K rows:
+    printed too) or, for the generated categories, from how the category is built (checked against K rows)."""
     if el.pair:
-        a, b = el.pair
-        return exp_reloc_elem(a, not CATS[a.cat]["user"]) and exp_reloc_elem(b, not CATS[b.cat]["user"])
-    decl = CATS[el.cat]["decl"]
+        return all(exp_reloc_elem(c, ktc[c.name] if ktc and c.name in ktc else not CATS[c.cat]["user"], ktc)
+                   for c in el.pair)
+    decl = None if el.std else CATS[el.cat]["decl"]     # no standard-library type declares the member
     if decl is not None:
         return decl
     return bool(tc)
@@ -479,7 +503,8 @@ class Judge:
 
     def row_K(self, a, b, c, v, idx):
         el = Elem(a)
-        if (v[idx["sz"]], v[idx["al"]]) != (el.s, el.a) or bool(v[idx["tc"]]) != (not CATS[el.cat]["user"]):
+        if not el.std and ((v[idx["sz"]], v[idx["al"]]) != (el.s, el.a)
+                           or bool(v[idx["tc"]]) != (not CATS[el.cat]["user"])):
             raise RuntimeError("generator: %s is not the type its name says: %r" % (a, v))
         self.ktc[a] = bool(v[idx["tc"]])
 
@@ -489,14 +514,14 @@ class Judge:
         for k in ("tc", "td", "nmc", "nma", "nsw"):
             t[k] = bool(v[idx[k]])
         # generator sanity (not a property of the library): the type is what its name says
-        if not el.pair:
+        if not el.pair and not el.std:
             cat = CATS[el.cat]
             if (t["sz"], t["al"]) != (el.s, el.a) or t["tc"] != (not cat["user"]):
                 raise RuntimeError("generator: %s is not the type its name says: %r" % (a, t))
             if cat["user"] and (t["nmc"], t["nma"], t["td"], t["nsw"]) != (
                     cat["mc"], cat["ma"], not cat["dtor"], bool(cat.get("adl")) or (cat["mc"] and cat["ma"])):
                 raise RuntimeError("generator: %s does not have the moves/dtor/swap its category says: %r" % (a, t))
-        t["reloc_exp"] = exp_reloc_elem(el, t["tc"])
+        t["reloc_exp"] = exp_reloc_elem(el, t["tc"], self.ktc)
         for cn, _, cempty, ctc, cdecl in COMPARATORS:
             if (bool(v[idx[cn + "_empty"]]), bool(v[idx[cn + "_tc"]])) != (cempty, ctc):
                 raise RuntimeError("generator: comparator %s empty/trivially-copyable is not as designed" % cn)
@@ -660,8 +685,10 @@ def support_rows(row):
             if t not in seen:
                 seen.append(t)
                 pre.append(["K", t, "-", "-"])
-    elif k not in ("H", "E"):
-        pre.append(["E", row[1], "-", "-"])
+    elif k != "H":
+        pre += [["K", d, "-", "-"] for d in Elem(row[1]).deps()[:-1]]     # components of a pair element type
+        if k != "E":
+            pre.append(["E", row[1], "-", "-"])
         if k == "T":
             pre.append(["S", row[1], "-", row[3]])
     return pre + ([row] if k != "H" else [])
@@ -731,6 +758,14 @@ def plan(tier):
             rows += [["K", d, "-", "-"] for d in Elem(nm).deps()[:2]]
             rows += element_rows(nm, tp["pair_ns"], [])
         chunks.append(("pe%03d" % (i // tp["types_per_chunk"]), rows))
+    # (b') standard-library element types (same rows, same N range as the pair elements).  All rows only instantiate
+    #      class templates and evaluate unevaluated operands, so the move-only std::unique_ptr<int> compiles too (probed).
+    for i in range(0, len(STD_ELEMS), tp["types_per_chunk"]):
+        rows = list(head)
+        for nm in STD_ELEMS[i:i + tp["types_per_chunk"]]:
+            rows += [["K", d, "-", "-"] for d in Elem(nm).deps()[:-1]]
+            rows += element_rows(nm, tp["pair_ns"], [])
+        chunks.append(("sx%03d" % (i // tp["types_per_chunk"]), rows))
     # (c) is_trivially_relocatable<pair<A,B>>: every type of the family against every category at three partner
     #     shapes, both orders; nested pairs over category^3 at one shape
     partners = [ename(c, s, a) for (s, a) in PAIR_PARTNER_SHAPES for c in CAT_ORDER]
@@ -820,7 +855,9 @@ def run(ctx):
         "rows_per_standard": sum(r["nrows"] for r in results),
         "evaluations_per_config": per_config,
         "evaluations_per_fact": by_fact,
-        "element_types": len(shp) * len(CAT_ORDER) + len(PAIR_ELEM_CATS) ** 2,
+        "element_types": len(shp) * len(CAT_ORDER) + len(PAIR_ELEM_CATS) ** 2 + len(STD_ELEMS),
+        "std_element_types": [STD_TYPES[n[2:]] if isinstance(STD_TYPES[n[2:]], str) else
+                              "std::pair<%s, %s>" % tuple(STD_TYPES[c] for c in STD_TYPES[n[2:]]) for n in STD_ELEMS],
         "shapes": len(shp), "categories": len(CAT_ORDER),
         "N": "0..%d + boundaries %s on the 1-byte types" % (tp["ns"][-1], BOUNDARY_NS),
         "size_types": ["u32(default)"] + [s for s, _, _ in STYPES],
